@@ -74,6 +74,18 @@ CHECKS = {
             "and a body whose content type and content equal the serialised argument.",
             "Expected wire form is the reference model in mc/props/c04.py (style/explode variants not demanded); values outside the two-value menus are not covered.",
             "4 C04"),
+    "C05": ("exploration", "bounded exhaustive enumeration of declared-2xx sets x content kinds x conforming bodies (x chunkings for streams); generated client driven against an in-memory server",
+            "For every operation of the bounded space (every single 2xx status x 22 content kinds, default-only, ordered pairs of 2xx declarations, 2xx+default) and every declared 2xx status the "
+            "server answers with every conforming body of the kind's instance menu; the returned value (or the items of the async iterator) must be of the annotated type and "
+            "re-serialise - by the harness, through wire keys - to the body; content-less responses return None; text/bytes come back as sent.",
+            "Instance menus have 1-3 bodies per content kind; streams 1 and 3 items x 3 chunkings; harness-side re-serialisation defines equality.",
+            "4 C05"),
+    "C06": ("exploration", "exhaustive status sweep: every declared-response set of size<=3 x every status 100..599 outside 2xx x 2 transports, driven through generated methods",
+            "For each of the 84 declared-response sets over {200,204,302,404,422,500,default,default+content} the generated method is called once per non-2xx status 100..599 (400 "
+            "statuses) through the bundled HttpxTransport and through a custom transport that returns responses unraised; each call must raise an instance of the package's HTTPError "
+            "carrying the status and the response, ClientError for 4xx and ServerError for 5xx. The status dimension is covered completely.",
+            "The server body is one fixed JSON object; operations whose package cannot be imported are reported under an `unimportable` clause.",
+            "4 C06"),
 }
 
 NOT_YET = {}
